@@ -3,9 +3,58 @@
 One run = regenerate Gen/*.v from /repo's working tree, full .vo build of the property's obligations
 (Props/Cxx/*.v and everything they depend on), grep gate, correspondence of the executable Gallina models with
 the implementation on the same cases, search for a concrete failing input, verdict, evidence."""
-import sys, os, argparse, importlib, random, json, traceback
+import sys, os, argparse, importlib, random, json, traceback, re, glob, subprocess
 sys.path.insert(0, os.path.dirname(os.path.dirname(os.path.abspath(__file__))))
 from ofxv import common as C
+
+
+# which property module's translate() regenerates which Gen/*.v (a property whose obligations import another engine's generated
+# tables has those regenerated from /repo as well, in their own interpreters: several translators set up their environment before
+# importing ofxtools)
+GEN_OWNER = {"SchemaGen": "c01", "SchemaS": "c01", "TypedGen": "c01", "SgmlGen": "c02", "HeaderGen": "c05", "ComposeGen": "c06", "DateTimeGen": "c09",
+             "ScalarsGen": "c10", "ClientGen": "c14", "LookupGen": "c16", "OfxgetGen": "c18", "IdentGen": "c20"}
+_MODREF = re.compile(r"\b(?:OfxV\.)?((?:Base|Model|Gen|Proofs)\.[A-Za-z0-9_]+)\b")
+
+
+def gen_deps(prop, extra=()):
+    """names of the Gen modules the property's obligations (and case-file imports) reach, by scanning module references"""
+    th = os.path.join(C.COQ, "theories")
+    todo = glob.glob(os.path.join(th, "Props", prop, "*.v")) + [os.path.join(C.COQ, e[:-1]) for e in extra]
+    seen, gens = set(), set()
+    while todo:
+        f = todo.pop()
+        if f in seen or not os.path.exists(f):
+            continue
+        seen.add(f)
+        for m in set(_MODREF.findall(open(f).read())):
+            if m.startswith("Gen."):
+                gens.add(m[4:])
+            todo.append(os.path.join(th, *m.split(".")) + ".v")
+    return gens
+
+
+def translate_others(prop, mod, rep):
+    own = prop.lower()
+    gens = gen_deps(prop, getattr(mod, "COQ_EXTRA", []))
+    owners = set()
+    for g in sorted(gens):
+        if g not in GEN_OWNER:
+            rep.broken.append("generated module Gen.%s has no registered translator" % g)
+        elif GEN_OWNER[g] != own:
+            owners.add(GEN_OWNER[g])
+    procs = []
+    for name in sorted(owners):
+        code = ("import sys; sys.path.insert(0, %r); from ofxv import common as C; C.use_repo(); import importlib; "
+                "importlib.import_module('ofxv.props.%s').translate()" % (os.path.join(C.VERIF, "tools"), name))
+        procs.append((name, subprocess.Popen([C.PY, "-c", code], cwd=C.VERIF, env=dict(os.environ, PYTHONHASHSEED="0", PYTHONDONTWRITEBYTECODE="1"),
+                                             stdout=subprocess.PIPE, stderr=subprocess.STDOUT, text=True)))
+    for name, pr in procs:
+        try:
+            out, _ = pr.communicate(timeout=600)
+        except subprocess.TimeoutExpired:
+            pr.kill(); out = "timeout"
+        if pr.returncode:
+            rep.broken.append("translator of %s (its generated tables are imported by %s's obligations) failed: %s" % (name.upper(), prop, out.strip()[-400:]))
 
 
 def main():
@@ -28,6 +77,7 @@ def main():
         except Exception as e:   # fail closed: the model is no longer tied to the source
             rep.broken.append("translator failed: %r" % (e,))
             traceback.print_exc()
+        translate_others(prop, mod, rep)
         obligations, makelog = C.compile_obligations(prop, getattr(mod, 'COQ_EXTRA', []))
         gate = C.grep_gate()
     try:
